@@ -1,6 +1,6 @@
 """C07 — exhaustiveness / usefulness analysis of patterns is exact.
 
-Proof: lean/SamVerif/Props/C07.lean over Model/Useful.lean (Maranget's matrix algorithm as written in
+Proof: lean/SamVerif/Props/C07.lean (lemmas: Lemmas/Useful.lean, UsefulTerm.lean, UsefulNorm.lean) over Model/Useful.lean (Maranget's matrix algorithm as written in
 crates/samlang-checker/src/pattern_matching.rs + the source->abstract normalisation of
 main_checker.rs:1082-1512).
 Tie: protocol `patcheck`: generated type declarations + pattern lists are rendered as samlang source,
@@ -139,35 +139,54 @@ def min_inhabitants(classes, types):
 # ---------------------------------------------------------------------------------------------
 # source patterns: ("W",) ("I",) ("T",[p]) ("O",[(fid,p)]) ("V",vid,[p],has_parens) ("R",[p])
 
-def gen_pat(rng, classes, t, depth, in_or=False, malformed=False):
+def fresh(ctr):
+    ctr[0] += 1
+    return ctr[0]
+
+
+def gen_pat(rng, classes, t, depth, in_or=False, malformed=False, ctr=None):
+    ctr = ctr if ctr is not None else [0]
     d = ty_def(classes, t)
     if malformed and rng.chance(1, 6):
         k = rng.below(5)
         if k == 0:
-            return ("T", [gen_pat(rng, classes, ("int",), depth + 1, in_or, False) for _ in range(rng.range(1, 3))])
+            return ("T", [gen_pat(rng, classes, ("int",), depth + 1, in_or, False, ctr) for _ in range(rng.range(1, 3))])
         if k == 1:
             return ("V", rng.below(len(VNAMES)), [("W",)] * rng.below(3), True)
         if k == 2:
             return ("O", [(rng.below(len(FNAMES)), ("W",))])
     leafy = depth >= 4 or d[0] == "prim" or rng.chance(2 + depth, 10)
     if leafy:
-        return ("W",) if in_or or rng.chance(1, 2) else ("I",)
+        return ("W",) if in_or or rng.chance(1, 2) else ("I", fresh(ctr))
     if depth < 3 and rng.chance(1, 6):
+        withf = [(v, tys) for v, tys in d[2] if tys] if d[0] == "enum" else []
+        if not in_or and len(withf) >= 1 and rng.chance(1, 2):
+            # or-pattern whose alternatives bind one shared name (consistent iff the bound fields have
+            # the same type); sometimes a different name / a missing binding (main_checker.rs:1462-1500)
+            x = fresh(ctr)
+            alts = []
+            for _ in range(rng.range(2, 3)):
+                v, tys = rng.pick(withf)
+                j = rng.below(len(tys))
+                name = fresh(ctr) if rng.chance(1, 8) else x
+                args = [("I", name) if i == j and not rng.chance(1, 10) else ("W",) for i in range(len(tys))]
+                alts.append(("V", v, args, True))
+            return ("R", alts)
         n = rng.range(2, 3)
-        return ("R", [gen_pat(rng, classes, t, depth + 1, True, malformed) for _ in range(n)])
+        return ("R", [gen_pat(rng, classes, t, depth + 1, True, malformed, ctr) for _ in range(n)])
     if d[0] == "enum":
         v, tys = rng.pick(d[2])
-        args = [gen_pat(rng, classes, x, depth + 1, in_or, malformed) for x in tys]
+        args = [gen_pat(rng, classes, x, depth + 1, in_or, malformed, ctr) for x in tys]
         if malformed and rng.chance(1, 5):
             args = args[:-1] if args and rng.chance(1, 2) else args + [("W",)]
         return ("V", v, args, bool(args) or rng.chance(1, 6) and False)
     fs = d[1]
     if rng.chance(1, 2):
-        args = [gen_pat(rng, classes, x, depth + 1, in_or, malformed) for _, x in fs]
+        args = [gen_pat(rng, classes, x, depth + 1, in_or, malformed, ctr) for _, x in fs]
         if malformed and rng.chance(1, 5):
             args = args[:-1] if len(args) > 1 and rng.chance(1, 2) else args + [("W",)]
         return ("T", args)
-    items = [(f, gen_pat(rng, classes, x, depth + 1, in_or, malformed)) for f, x in fs]
+    items = [(f, gen_pat(rng, classes, x, depth + 1, in_or, malformed, ctr)) for f, x in fs]
     items = rng.shuffle(items)
     if malformed and rng.chance(1, 5) and len(items) > 1:
         items = items[:-1]
@@ -188,7 +207,7 @@ def pat_src(p, nm):
     if k == "W":
         return "_"
     if k == "I":
-        return nm.fresh()
+        return f"v{p[1]}"
     if k == "T":
         return "(" + ", ".join(pat_src(x, nm) for x in p[1]) + ")"
     if k == "O":
@@ -202,8 +221,10 @@ def pat_src(p, nm):
 
 def pat_tokens(p):
     k = p[0]
-    if k in ("W", "I"):
-        return [k]
+    if k == "W":
+        return ["W"]
+    if k == "I":
+        return ["I", str(p[1])]
     if k == "T":
         return ["T", str(len(p[1]))] + [t for x in p[1] for t in pat_tokens(x)]
     if k == "R":
@@ -270,6 +291,24 @@ def case_line(case):
     toks += ["P", str(len(case["pats"]))]
     for p in case["pats"]:
         toks += pat_tokens(p)
+
+    def gty(t):
+        if t[0] == "int":
+            return ["i"]
+        if t[0] == "tp":
+            return ["t"]
+        return ["c", str(cls_ids[t[1]])] + (["0"] if t[2] is None else ["1"] + gty(t[2]))
+    toks += ["G", str(len(classes))]
+    for c in classes:
+        if c["kind"] == "enum":
+            toks += ["E", str(len(c["variants"]))]
+            for v, tys in c["variants"]:
+                toks += [str(v), str(len(tys))] + [x for t in tys for x in gty(t)]
+        else:
+            toks += ["S", str(len(c["fields"]))]
+            for f, t in c["fields"]:
+                toks += [str(f)] + gty(t)
+    toks += ["Y", str(len(order))] + [x for t in order for x in gty(t)]
     return " ".join(toks)
 
 
@@ -309,19 +348,20 @@ def gen_case(rng, malformed=False, want_uninhabited=False):
         n = rng.weighted([(1, 2), (2, 4), (3, 4), (4, 3), (5, 2), (6, 1)])
     else:
         n = 1
-    pats = [gen_pat(rng, classes, ty, 0, False, malformed) for _ in range(n)]
+    ctr = [0]
+    pats = [gen_pat(rng, classes, ty, 0, False, malformed, ctr) for _ in range(n)]
     if kind != "match" and not malformed and rng.chance(1, 3):
         # make irrefutable patterns likelier
-        pats = [irrefutable(rng, classes, ty, 0)]
+        pats = [irrefutable(rng, classes, ty, 0, ctr)]
     return {"classes": classes, "ty": ty, "kind": kind, "pats": pats, "malformed": malformed}
 
 
-def irrefutable(rng, classes, t, depth):
+def irrefutable(rng, classes, t, depth, ctr):
     d = ty_def(classes, t)
     if depth > 2 or d[0] == "prim" or rng.chance(1, 3):
-        return ("W",) if rng.chance(1, 2) else ("I",)
+        return ("W",) if rng.chance(1, 2) else ("I", fresh(ctr))
     if d[0] == "struct":
-        return ("T", [irrefutable(rng, classes, x, depth + 1) for _, x in d[1]])
+        return ("T", [irrefutable(rng, classes, x, depth + 1, ctr) for _, x in d[1]])
     if rng.chance(1, 2):
         return ("R", [("V", v, [("W",)] * len(tys), True) for v, tys in d[2]])
     return ("W",)
@@ -375,12 +415,39 @@ def smatch(classes, p, t, v):
     raise ValueError(p)
 
 
+def pat_binds(classes, p, t):
+    """bindings (name -> closed type) of a well-formed source pattern"""
+    k = p[0]
+    if k == "W":
+        return {}
+    if k == "I":
+        return {p[1]: t}
+    if k == "R":
+        return pat_binds(classes, p[1][0], t)
+    d = ty_def(classes, t)
+    out = {}
+    if k == "V":
+        for x, tt in zip(p[2], dict(d[2])[p[1]]):
+            out.update(pat_binds(classes, x, tt))
+    elif k == "T":
+        for x, (_, tt) in zip(p[1], d[1]):
+            out.update(pat_binds(classes, x, tt))
+    else:
+        fs = dict(d[1])
+        for f, x in p[1]:
+            out.update(pat_binds(classes, x, fs[f]))
+    return out
+
+
 def well_formed(classes, p, t):
     k = p[0]
     if k in ("W", "I"):
         return True
     if k == "R":
-        return all(well_formed(classes, x, t) for x in p[1])
+        if not all(well_formed(classes, x, t) for x in p[1]):
+            return False
+        b0 = pat_binds(classes, p[1][0], t)
+        return all(pat_binds(classes, x, t) == b0 for x in p[1][1:])
     d = ty_def(classes, t)
     if k == "V":
         if d[0] != "enum" or p[1] not in dict(d[2]):
@@ -546,7 +613,7 @@ def model_verdict(ans):
     kv = dict(x.split("=", 1) for x in ans.split(" "))
     ne = None if kv["nonexh"] == "-" else re.sub(r"#(\d+)", lambda m: VNAMES[int(m.group(1))], kv["nonexh"].replace("~", " "))
     return {"nonexh": ne, "useless": kv["useless"] == "1", "err": kv["err"] == "1",
-            "panic_norm": kv["panic"] == "1", "typed": kv["typed"] == "1", "inh": kv.get("inh") == "1"}
+            "panic_norm": kv["panic"] == "1", "typed": kv["typed"] == "1", "inh": kv.get("inh") == "1", "mono": kv.get("mono") == "1"}
 
 
 def arity_overflow(classes, p, t):
@@ -577,6 +644,8 @@ def classify(ctx, case, ians, mans, stats):
         return ("protocol answer not understood: impl=%r model=%r" % (ians[:80], mans[:80]), True, None)
     if "panic" in iv:
         return ("type checker panics (`%s`) on a match/let/if-let" % iv["panic"], False, None)
+    if not mv["mono"]:
+        return ("the monomorphic type table sent to the model is not the instantiation of the generic classes (monoCheck failed)", True, None)
     if not mv["typed"]:
         # outside the model's domain (ill-shaped matrix): the real checker must at least reject
         stats["illtyped"] = stats.get("illtyped", 0) + 1
@@ -717,7 +786,7 @@ def exhaustive_small(ctx, stats, limit):
 
 
 F1_CASE = {"classes": [{"name": "C0", "generic": False, "kind": "struct", "fields": [(0, ("int",)), (1, ("int",))]}],
-           "ty": ("cls", "C0", None), "kind": "match", "pats": [("T", [("I",), ("I",)]), ("T", [("I",), ("I",), ("I",)])],
+           "ty": ("cls", "C0", None), "kind": "match", "pats": [("T", [("I", 1), ("I", 2)]), ("T", [("I", 3), ("I", 4), ("I", 5)])],
            "malformed": True}
 
 
@@ -776,7 +845,7 @@ def run(ctx):
         "pending": PENDING})
     ctx.assumptions += [
         "every type reachable from the scrutinee type has a value (Inhabited'); for uninhabited recursive enums the algorithm still asks for all variants (stated in DESIGN section 8 C07)",
-        "identifier names / or-pattern binding consistency are not modelled (generators put only `_` below `|`)",
+        "no name is bound twice inside one alternative (NameAlreadyBound is outside the model)",
         "variant names <= 15 bytes so that PStr order is byte order"]
     return ctx.finish(res, trusted=common.TRUSTED_COMMON + [
         "hand-written model Model/Useful.lean (HashMap of root constructors as association list; default-matrix row order differs from the Rust work-list, no caller depends on it)",
@@ -785,9 +854,9 @@ def run(ctx):
 
 
 PENDING = [
-    "counterexample_sound: cexF = some (some d) -> some well-typed value matched by d is matched by no row (needs inhabitedness + distinct variant names); today covered by the correspondence and the brute-force oracle only",
-    "exhaustive_accepted: every value matched -> cexF = some none (completeness direction of the match/let verdict)",
-    "useful_terminates / cex_terminates: fuel-free statements (measure: (sum of row weights with multiplicative or-expansion, |q|) lexicographic); today every theorem is stated for all fuel values at which the function returns, and the driver reports `fuel` (a protocol error) if 10^7 does not suffice",
+    "normalize_preserves_matching: a Lean-side matching semantics of *source* patterns and the proof that the abstract node of a well-formed source pattern matches the same values (today: the Python brute-force oracle checks the real checker's verdicts against source-level matching)",
+    "an explicit fuel bound function (termination is proved as: some fuel suffices and the answer is stable from there on; the driver runs with 10^7 and reports `fuel` otherwise)",
+    "classes with more than one type parameter, NameAlreadyBound diagnostics (same name twice in one alternative)",
 ]
 
 
@@ -802,8 +871,10 @@ def load_case(d):
 
     def pat(p):
         k = p[0]
-        if k in ("W", "I"):
-            return (k,)
+        if k == "W":
+            return ("W",)
+        if k == "I":
+            return ("I", p[1])
         if k in ("T", "R"):
             return (k, [pat(x) for x in p[1]])
         if k == "O":
